@@ -112,11 +112,23 @@ func genStream(r *Rng, prop, phase string, knob bool, pEarly, pErr float64) []*S
 		limit = rs.Fault.At
 	}
 	rs.Ops, rs.Family = genSchedule(r, doc, limit, pts)
+	rs.Scribble = genScribble(r)
 	s.Reader = rs
 	if knob {
 		s.Knobs = map[string]int{"chunkSize": chunkKnobs[r.Intn(len(chunkKnobs))]}
 	}
 	return []*Scenario{s}
+}
+
+var scribbleKinds = []string{"garbage", "newline", "nul", "data"}
+
+// genScribble: one run in four uses a reader that treats the unfilled part of
+// the slice it is handed as scratch space.
+func genScribble(r *Rng) string {
+	if r.Chance(0.25) {
+		return r.Pick(scribbleKinds)
+	}
+	return ""
 }
 
 // genStreamLarge: documents of 10-90 KiB under the REAL constants (8 KiB
@@ -206,6 +218,7 @@ func genStreamLarge(r *Rng, prop, phase string, pEarly, pErr float64) []*Scenari
 		}
 		rs.Ops = cutsToOps(cuts, limit)
 	}
+	rs.Scribble = genScribble(r)
 	s.Reader = rs
 	return []*Scenario{s}
 }
@@ -232,6 +245,9 @@ func genEnumK(r *Rng, prop, phase, kind string) []*Scenario {
 		}
 		rs := &ReaderScn{Terminal: []string{"separate", "with-data"}[k%2], ExtraCalls: 1 + k%3, Family: fam}
 		rs.Fault = FaultScn{Kind: kind, At: k, WithData: (k/2)%2 == 0}
+		if k%3 == 1 {
+			rs.Scribble = scribbleKinds[(k/3)%len(scribbleKinds)]
+		}
 		if kind == "error" {
 			rs.Fault.Err = faultErrKinds[(k+len(doc))%len(faultErrKinds)]
 		}
@@ -284,6 +300,11 @@ func genWalkScn(r *Rng, nblocks int) *WalkScn {
 		}
 	}
 	ws.Tape = sb.String()
+	if r.Chance(0.2) {
+		for i, d := 0, r.Range(1, 4); i < d; i++ {
+			ws.RootPath = append(ws.RootPath, r.Intn(6))
+		}
+	}
 	return ws
 }
 
@@ -302,6 +323,7 @@ func genTotality(r *Rng, phase string) []*Scenario {
 	rs := &ReaderScn{Terminal: r.Pick([]string{"separate", "with-data"}), ExtraCalls: r.Range(1, 3)}
 	rs.Fault.Kind = "none"
 	rs.Ops, rs.Family = genSchedule(r, doc, len(doc), nil)
+	rs.Scribble = genScribble(r)
 	s.Reader = rs
 	all := allRenderScns(r.U64())
 	if tierThorough && phase == "healthy" {
@@ -727,6 +749,9 @@ func streamStats(s *Scenario, obs *streamObs, st *runStats) (nontrivial bool) {
 		}
 	}
 	st.Faults["empty_read"] += rd.EmptyReads
+	if rd.Scribbled > 0 {
+		st.Faults["reader_scribbled_unfilled_part_of_p"] += rd.Scribbled
+	}
 	if rd.DataWithErr > 0 {
 		if s.Reader.Fault.Kind == "error" {
 			st.Faults["data_returned_with_error"]++
@@ -775,5 +800,5 @@ func streamStats(s *Scenario, obs *streamObs, st *runStats) (nontrivial bool) {
 		st.Probes["calls_after_terminal_error"] += len(obs.ExtraErrs)
 	}
 	return dataReads > 1 || rd.EmptyReads > 0 || s.Reader.Fault.Kind == "error" || s.Reader.Fault.Kind == "early-eof" ||
-		rd.DataWithErr > 0 || len(s.Knobs) > 0
+		rd.DataWithErr > 0 || len(s.Knobs) > 0 || rd.Scribbled > 0
 }
